@@ -146,6 +146,9 @@ Print Assumptions C01_items_roundtrip.
 Definition sample_tree : list item :=
   [ IFn (TPlain (tn [] "void") false PNone true, "f", [(TPlain (tn ["gtsam"] "Pose3") true PRef false, "p")]);
     IInc "gtsam/geometry/Pose3.h"; IFwd false "Later"; IEnum "classy" ["Red"; "Green"; "NONE"];
+    ITypedef (TTempl ["std"] (NStr "vector") [TPlain (tn ["gtsam"] "Pose3") false PNone false;
+                                              TTempl ["std"] (NStr "map") [TPlain (tn [] "int") false PNone true; TPlain (tn [] "Key") false PNone false] false PNone]
+                    false PNone) "PoseList";
     INs "outer" [ INs "inner" [ IFn (sample_type, "make", [(sample_type, "x")]); IVar sample_type "origin" ]; INs "empty" [ IFwd true "Base" ];
                   IFn (TPlain (tn [] "Key") false PNone false, "g", []) ];
     IFn (TPlain (tn [] "double") false PNone true, "h", []) ]%string.
@@ -154,6 +157,7 @@ Example C01_items_nonvacuous :
   print_items sample_tree =
     (" void f ( const gtsam :: Pose3 & p ) ; #include <gtsam/geometry/Pose3.h> class Later ;" ++
      " enum classy { Red , Green , NONE } ;" ++
+     " typedef std :: vector < gtsam :: Pose3 , std :: map < int , Key > > PoseList ;" ++
      " namespace outer { namespace inner {" ++
      " const gtsam :: Foo < int , std :: vector < Bar * > , const ns :: a :: K < double & > @ > & make" ++
      " ( const gtsam :: Foo < int , std :: vector < Bar * > , const ns :: a :: K < double & > @ > & x ) ;" ++
